@@ -1,3 +1,5 @@
 import DnsVerif.Props.C06
 #print axioms DnsVerif.Props.C06.life_all
 #print axioms DnsVerif.Props.C06.quiescent_closed_once
+#print axioms DnsVerif.Props.C06.acquire_atomic
+#print axioms DnsVerif.Props.C06.reload_exclusive
